@@ -550,6 +550,8 @@ def rand_gate_desc(rng, max_m):
             return {"kind": "controlled", "nc": nc, "ctrl_state": [rng.randint(0, 1) for _ in range(nc)], "target": t}, nc + tm
         if k == "multiplexed" and max_m >= 2:
             nc = rng.randint(1, min(2, max_m - 1))
+            if rng.random() < 0.15:
+                nc = 0          # the degenerate multiplexer without control: one target, the gate acts like its target (particles() = the target's)
             ts = [{"kind": "single", "cls": "RyGate", "args": [rng.uniform(-3, 3)]} for _ in range(2 ** nc)]
             return {"kind": "multiplexed", "nc": nc, "targets": ts}, nc + 1
 
